@@ -88,7 +88,7 @@ func runSendMachine(c *Case) ([]Obs, any) {
 	tu := NewTxUniverse()
 	cfg := client.NewConfig("127.0.0.1:1", keyFromInt(7).PublicKey(), keyFromInt(11), 100, client.ConnectionTypeFull)
 	cfg.MessageChannelTimeout = config.NewDuration(150 * time.Millisecond)
-	cfg.HandshakeTimeout = config.NewDuration(60 * time.Second)
+	cfg.HandshakeTimeout = config.NewDuration(time.Duration(cfgInt(c, "hs_timeout_ms", 60000)) * time.Millisecond)
 	rc, err := client.NewRemoteClient(cfg)
 	if err != nil {
 		panic(harnessErr("new client: " + err.Error()))
